@@ -11,6 +11,7 @@
 #include "TFEL/Material/Cazacu2004OrthotropicYieldCriterion.hxx"
 #include "TFEL/Material/Hosford1972YieldCriterion.hxx"
 #include "TFEL/Material/Barlat2004YieldCriterion.hxx"
+#include "TFEL/Material/MohrCoulombYieldCriterion.hxx"
 
 using namespace tfel::math;
 using namespace tfel::material;
@@ -179,7 +180,121 @@ static void trace_dim(const bool orthotropic) {
   }
 }
 
+// ---------------------------------------------------------------- Mohr-Coulomb (Abbo-Sloan rounding)
+// The parameter structure is filled with independent symbols (the theorems then hold whatever the cached
+// trigonometric values are); shadows: friction angle 30 deg, transition angle 25 deg.
+template <unsigned short N>
+static MohrCoulombParameters<stensor<N, Sym>> mc_parameters() {
+  MohrCoulombParameters<stensor<N, Sym>> p;
+  const double ang = 30. * M_PI / 180, lt = 25. * M_PI / 180;
+  p.c = verif::scalar_input("pc", 0.75);
+  p.angle = verif::scalar_input("angle", ang);
+  p.lodeT = verif::scalar_input("lodeT", lt);
+  p.a = verif::scalar_input("pa", 0.25);
+  p.cos_angle = verif::scalar_input("cos_angle", std::cos(ang));
+  p.sin_angle = verif::scalar_input("sin_angle", std::sin(ang));
+  p.cos_lodeT = verif::scalar_input("cos_lodeT", std::cos(lt));
+  p.sin_lodeT = verif::scalar_input("sin_lodeT", std::sin(lt));
+  p.tan_lodeT = verif::scalar_input("tan_lodeT", std::tan(lt));
+  p.cos_3_lodeT = verif::scalar_input("cos_3_lodeT", std::cos(3 * lt));
+  p.sin_3_lodeT = verif::scalar_input("sin_3_lodeT", std::sin(3 * lt));
+  p.cos_6_lodeT = verif::scalar_input("cos_6_lodeT", std::cos(6 * lt));
+  p.sin_6_lodeT = verif::scalar_input("sin_6_lodeT", std::sin(6 * lt));
+  p.tan_3_lodeT = verif::scalar_input("tan_3_lodeT", std::tan(3 * lt));
+  return p;
+}
+
+// Lode angle (degrees) as the criterion computes it, in double precision
+template <unsigned short N>
+static double mc_lode(const stensor<N, double>& sig) {
+  const auto s = deviator(sig);
+  const double J2 = (s | s) / 2, J3 = det(s);
+  return std::asin(std::min(std::max(-3 * std::sqrt(3.) * J3 / (2 * J2 * std::sqrt(J2)), -1.), 1.)) / 3 * 180 / M_PI;
+}
+
+// default stress of a region: principal stresses from a Lode parameter, rotated (in plane for N=2, generally for N=3)
+template <unsigned short N>
+static stensor<N, double> mc_stress(const double deg) {
+  const double t = deg * M_PI / 180, k = 2 * 1.25 / std::sqrt(3.), pm = -0.5;
+  const double sp[3] = {pm + k * std::sin(t + 2 * M_PI / 3), pm + k * std::sin(t), pm + k * std::sin(t - 2 * M_PI / 3)};
+  const double a = N == 3 ? 1.1 : 0., b = N == 3 ? -0.7 : 0., c = N >= 2 ? 0.4 : 0.;
+  const double ca = std::cos(a), sa = std::sin(a), cb = std::cos(b), sb = std::sin(b), cc = std::cos(c), sc = std::sin(c);
+  const double R[3][3] = {{cc * cb, cc * sb * sa - sc * ca, cc * sb * ca + sc * sa},
+                          {sc * cb, sc * sb * sa + cc * ca, sc * sb * ca - cc * sa},
+                          {-sb, cb * sa, cb * ca}};
+  double m[3][3];
+  for (int i = 0; i != 3; ++i)
+    for (int j = 0; j != 3; ++j) {
+      m[i][j] = 0;
+      for (int l = 0; l != 3; ++l) m[i][j] += R[i][l] * sp[l] * R[j][l];
+    }
+  const double s2 = std::sqrt(2.);
+  const double v[6] = {m[0][0], m[1][1], m[2][2], s2 * m[0][1], s2 * m[0][2], s2 * m[1][2]};
+  stensor<N, double> r;
+  for (int i = 0; i != StensorDimeToSize<N>::value; ++i) r[i] = v[i];
+  return r;
+}
+
+template <unsigned short N>
+static void trace_mohr_coulomb() {
+  using S = stensor<N, Sym>;
+  constexpr int n = StensorDimeToSize<N>::value;
+  // regions of the Lode angle: |lode| < lodeT, lode >= lodeT, lode <= -lodeT
+  const char* const names[3] = {"MCmid", "MCpos", "MCneg"};
+  for (int r = 0; r != 3; ++r) {
+    stensor<N, double> sd;
+    bool ok = false;
+    for (const double deg : {10., 28., -28., -10.}) {
+      sd = mc_stress<N>(deg);
+      const double l = mc_lode<N>(sd);
+      if ((r == 0 && std::abs(l) < 20) || (r == 1 && l > 26) || (r == 2 && l < -26)) {
+        ok = true;
+        break;
+      }
+    }
+    if (!ok) {
+      std::fprintf(stderr, "no default stress for region %s\n", names[r]);
+      std::abort();
+    }
+    auto stress_mc = [&sd]() {
+      S s;
+      for (int i = 0; i != n; ++i) s[i] = verif::scalar_input("s" + std::to_string(i), sd[i]);
+      return s;
+    };
+    const std::string d = std::string(names[r]) + "_N" + std::to_string(N);
+    {
+      Unit u(d + "_v");
+      Concolic cc;
+      const S s = stress_mc();
+      const auto p = mc_parameters<N>();
+      verif::output("r", computeMohrCoulombStressCriterion(p, s));
+    }
+    {
+      Unit u(d + "_n");
+      Concolic cc;
+      const S s = stress_mc();
+      const auto p = mc_parameters<N>();
+      const auto res = computeMohrCoulombStressCriterionNormal(p, s);
+      verif::output("r", std::get<0>(res));
+      out_normal<N>(std::get<1>(res));
+    }
+    {
+      Unit u(d + "_s");
+      Concolic cc;
+      const S s = stress_mc();
+      const auto p = mc_parameters<N>();
+      const auto res = computeMohrCoulombStressCriterionSecondDerivative(p, s);
+      verif::output("r", std::get<0>(res));
+      out_normal<N>(std::get<1>(res));
+      out_second<N>(std::get<2>(res));
+    }
+  }
+}
+
 int main() {
+  trace_mohr_coulomb<1u>();
+  trace_mohr_coulomb<2u>();
+  trace_mohr_coulomb<3u>();
   trace_dim<1u>(true);
   trace_dim<2u>(true);
   trace_dim<3u>(false);
